@@ -33,6 +33,8 @@ class Inter:
         """Payload number i sent by `role` ('q' request, 'u' upstream element, 'd' downstream element, 'r' response)."""
         head = ('%s%s%d:' % (self.tag, role, i)).encode()
         if self.size == 'S':
+            if (i + {'q': 0, 'r': 0, 'd': 0, 'u': 1}[role]) % 3 == 2 and role in ('d', 'u'):
+                return P(None, head + b'metadata-only')  # an element may consist of metadata alone
             return P(head + b'\x00\xff', head if (i % 2) else None)
         if self.size == 'F':
             # fragmenting payloads; the shape rotates with the element index so that boundary sizes occur:
